@@ -38,8 +38,10 @@ def expected_map(op, args, p, dim):
             s = s + [s[-1]]
         return [a * s[i] for i, a in enumerate(p)]
     if op in ('idiv', 'div'):
-        s = Fr(args['s'][0])
-        return [a / s for a in p]
+        s = [Fr(v) for v in args['s']]
+        while len(s) < 3:
+            s = s + [s[-1]]
+        return [a / s[i] for i, a in enumerate(p)]
     if op == 'rotate':
         ch, sh = Fr(args['ch']), Fr(args['sh'])
         c, s = ch * ch - sh * sh, 2 * sh * ch
@@ -69,6 +71,22 @@ def expected_map(op, args, p, dim):
     if op == 'force_rational':
         return list(p)
     raise KeyError(op)
+
+
+def divisor(args):
+    """the divisor of / and /= in the spelling the case asks for"""
+    import numpy as np
+    vals = [Fr(v) for v in args['s']]
+    form = args.get('form', 'scalar')
+    if form == 'scalar':
+        return float(vals[0])
+    if form == 'list':
+        return [int(v) if v.denominator == 1 else float(v) for v in vals]
+    if form == 'tuple':
+        return tuple(int(v) if v.denominator == 1 else float(v) for v in vals)
+    if form == 'intarray':
+        return np.array([int(v) for v in vals])
+    return np.array([float(v) for v in vals])
 
 
 def run(tier, seed, replay=None):
@@ -117,6 +135,11 @@ def run(tier, seed, replay=None):
                         args['form'] = 'scalar'
                 elif op in ('idiv', 'div'):
                     args['s'] = [str(rng.choice([Fr(2), Fr(-4), Fr(1, 2), Fr(8)]))]
+                    args['form'] = 'scalar'
+                    if rng.random() < 0.5:
+                        # one divisor per physical direction, as an integer or float array
+                        args['s'] = [str(Fr(rng.choice([2, 4, -2, 5, 1, 8]))) for _ in range(dim)]
+                        args['form'] = rng.choice(['intarray', 'intarray', 'floatarray'])   # 1.0 / x: arrays only, lists are not supported by the library
                 elif op == 'rotate':
                     m = rng.choice(HALF_TANS)
                     ch, sh = (1 - m * m) / (1 + m * m), 2 * m / (1 + m * m)
@@ -164,7 +187,7 @@ def run(tier, seed, replay=None):
                     o *= float(Fr(args['s'][0]))
                     ret = o
                 elif op == 'idiv':
-                    o /= float(Fr(args['s'][0]))
+                    o /= divisor(args)
                     ret = o
                 else:
                     before_bytes = o.controlpoints.tobytes()
@@ -179,7 +202,7 @@ def run(tier, seed, replay=None):
                     elif op == 'rmul':
                         result = float(Fr(args['s'][0])) * o
                     elif op == 'div':
-                        result = o / float(Fr(args['s'][0]))
+                        result = o / divisor(args)
                     ret = o
                     if result is o or o.controlpoints.tobytes() != before_bytes:
                         V.failure(dict(case, what='infix operator modified or returned its operand'))
@@ -205,7 +228,7 @@ def run(tier, seed, replay=None):
         elif op in ('scale', 'imul', 'mul', 'rmul'):
             lines.append('obj_scale %s %s' % (ot, C.qlist([Fr(v) for v in a['s']])))
         elif op in ('idiv', 'div'):
-            lines.append('obj_scale %s %s' % (ot, C.qlist([C.fr(1.0 / float(Fr(a['s'][0])))])))
+            lines.append('obj_scale %s %s' % (ot, C.qlist([C.fr(1.0 / float(Fr(v))) for v in a['s']])))
         elif op == 'rotate':
             lines.append('obj_rotate %s %s %s %s %s' % (ot, C.qs(Fr(a['ch'])), C.qs(Fr(a['sh'])), C.qlist([Fr(v) for v in a['normal']]), C.qs(Fr(a['inv']))))
         elif op == 'mirror':
